@@ -11,6 +11,7 @@ import Proofs.C16.ToyExamples
 import Proofs.E2E.C16Raw
 import Proofs.C16.LG
 import Proofs.C16.SilentPaymentsE2E
+import Proofs.C16.SilentPaymentsGroups
 /-!
 # C16 — property theorems only (see DESIGN.md §3 C16).
 
@@ -286,37 +287,64 @@ theorem sp_scan_complete_unlabelled (H : Bytes → Bytes → Bytes) (secret Bspe
 address under the group's secret, `k` counting from `k₀` (`groupOutputs`) — answers exactly a chain
 `x(B_spend + t_k•G)`, `k = k₀ … k₀+j−1`: the counter advances once per repeated recipient. Composed with
 `sp_scan_complete_unlabelled` (same secret: T9 agreement): every one of the `j` outputs is found.
-(For several DIFFERENT labelled addresses of one scan key in a group, and for `positionsOf`/`groupOffset`'s
-re-ordering into address order, there is no theorem: `sp.output_keys` streams and `sp.sender_scanner` oracle.) -/
+(Several DIFFERENT addresses in one group, several groups and `positionsOf`/`groupOffset`'s re-ordering into address
+order: `sp_output_keys_is_walk` and `sp_end_to_end` below.) -/
 theorem sp_sender_group_is_chain (H : Bytes → Bytes → Bytes) (secret Bspend : α) (j k : Nat) (xs : List Bytes)
     (h : groupOutputs o H secret (List.replicate j Bspend) k = .ok xs) :
     ∃ exp, exp.map Prod.fst = xs ∧ exp.length = j ∧ SpChain o H secret Bspend k exp :=
   groupOutputs_chain H secret Bspend j k xs h
 
+/-- **T9 (`output_keys` is the walk in address order).** btclib's `output_keys` groups the addresses by scan key
+(`groups.setdefault`), derives the keys group by group with `k` counting inside a group, and then puts them back in
+the order of the addresses (`positions`, `first`): model `outputKeys`, mirrored line by line.  Whenever that answers —
+the scan points the addresses carry are points of the curve, never infinity (`hnz`: `keys_from_address` decodes them
+with `point_from_octets`) — it answers exactly the one-walk specification `outputKeysWalk`: recipient `i` gets
+`x(B_m_i + t_k•G)` under its scan key's secret with `k` = the number of EARLIER recipients with that scan key, at
+position `i`.  So the re-ordering (`positionsOf`, `groupOffset`) puts every key where its address was, for any
+interleaving of scan keys, repeated and labelled addresses. (One direction: that `outputKeys` answers whenever the walk
+does is not proved; the `sp.output_keys` / `sp.output_keys_walk` streams compare both with btclib.) -/
+theorem sp_output_keys_is_walk (L : LawfulGroup o G) (H : Bytes → Bytes → Bytes) (keys : List (Int × Bool))
+    (outpoints : List Bytes) (recips : List (α × α)) (hnz : ∀ r ∈ recips, L.abs r.1 ≠ 0) (outs : List Bytes)
+    (h : outputKeys o H keys outpoints recips = .ok outs) :
+    outputKeysWalk o H keys outpoints recips = .ok outs :=
+  outputKeys_is_walk L H keys outpoints recips hnz outs h
+
 /-- **T9 (end to end: what the sender creates for an address, that address's scanner finds).** The sender pays ANY list
-of addresses — several scan keys, repeated addresses, any order: `output_keys` in specification form (`outputKeysWalk`:
-recipient `i` gets `x(B_m + t_k•G)` under its scan key's secret, `k` = number of earlier recipients with that scan key;
-the group-then-reorder form `outputKeys` that mirrors btclib line by line answers the same on every streamed input,
-`sp.output_keys` / `sp.output_keys_walk`, but the two forms are NOT proved equal) — from ANY input set (taproot keys
-negated to even y).  The recipient `(b_scan, B_spend)`, all of whose payments go to its unlabelled address, runs
-`scan_transaction_outputs` on outputs containing the sender's keys (decoys allowed, any order), with the input public
-keys it sees (even-y points for taproot inputs) and no labels.  Then the scan's answer STARTS with exactly this
-recipient's outputs, in address order, each with the tweak `t_k` the sender used: every one is found; with
+of addresses — several scan keys, repeated addresses, any order — with `output_keys` AS BTCLIB COMPUTES IT (`outputKeys`:
+group by scan key, derive group by group, re-order into address order; `sp_output_keys_is_walk` reduces it to the walk)
+from ANY input set (taproot keys negated to even y).  The recipient `(b_scan, B_spend)`, all of whose payments go to
+its unlabelled address, runs `scan_transaction_outputs` on outputs containing the sender's keys (decoys allowed, any
+order), with the input public keys it sees (even-y points for taproot inputs) and no labels.  Then the scan's answer
+STARTS with exactly this recipient's outputs (`mine`: the sender's keys at the positions of this recipient's
+addresses), in address order, each with the tweak `t_k` the sender used: every one is found; with
 `sp_scan_reports_spendable_partial`, `b_spend + t_k` opens it.  Sender's and scanner's secrets are different
 computations (`(h·a)•B_scan` vs `b_scan•(h•A)`): `sp_agreement` + the congruence `SpChain.congr` join them.
 No `lift_x` is involved (`LawfulGroup`: for `Btc.EC.ops`' carrier no `p ≡ 3 mod 4`, no cofactor hypothesis); the
-statement is over a lawful instance — its raw `EC.ops` form (an `OpsHom` transfer of `scanLoop`/`outputKeysWalk`) is
-not written out.  Labelled addresses: not covered (see `sp_scan_reports_spendable_partial`). -/
+statement is over a lawful instance — its raw `EC.ops` form (an `OpsHom` transfer of `scanLoop`/`outputKeys`) is
+not written out.  Labelled addresses of the SCANNING recipient: not covered (see `sp_scan_reports_spendable_partial`);
+other recipients may be labelled at will. -/
 theorem sp_end_to_end (L : LawfulGroup o G) (H : Bytes → Bytes → Bytes) (keys : List (Int × Bool))
-    (outpoints : List Bytes) (recips : List (α × α)) (outs : List Bytes)
-    (hsend : outputKeysWalk o H keys outpoints recips = .ok outs)
+    (outpoints : List Bytes) (recips : List (α × α)) (hnz : ∀ r ∈ recips, L.abs r.1 ≠ 0) (outs : List Bytes)
+    (hsend : outputKeys o H keys outpoints recips = .ok outs)
     (bScan : Int) (hb : 0 < bScan ∧ bScan < o.n) (Bspend : α)
     (hrec : ∀ r ∈ recips, o.eq r.1 (o.mul bScan o.gen) = true → r = (o.mul bScan o.gen, Bspend))
     (txOuts : List Bytes) (hsub : outs.Subperm txOuts) (res : List (Bytes × Int))
     (hscan : scanTransactionOutputs o H bScan Bspend outpoints (keys.map fun k => spInputPoint o k.1 k.2) txOuts []
       = .ok res) :
     ∃ exp, exp <+: res ∧ exp.map Prod.fst = mine o (o.mul bScan o.gen) outs recips :=
-  Btc.C16.sp_end_to_end L H keys outpoints recips outs hsend bScan hb Bspend hrec txOuts hsub res hscan
+  sp_end_to_end_output_keys L H keys outpoints recips hnz outs hsend bScan hb Bspend hrec txOuts hsub res hscan
+
+/-- non-vacuity of `sp_end_to_end`, every hypothesis discharged by evaluation, on the lawful group ℤ/3
+(`Proofs/C12/Toy.lean`): three addresses with INTERLEAVED scan keys (`1•G`, `2•G`, `1•G`), a decoy output in front -/
+example : ∃ exp : List (Bytes × Int), exp <+: [(sBytes 5, 1), (sBytes 5, 1), (sBytes 5, 1)] ∧ exp.length = 2 := by
+  obtain ⟨exp, h1, h2⟩ := sp_end_to_end Btc.Taproot.Toy.lawful.toLawfulGroup ToyEx.Ht [(1, false)] [[0]]
+    [((1 : ZMod 3), (1 : ZMod 3)), (2, 1), (1, 1)] (by decide) [sBytes 5, sBytes 5, sBytes 5] (by decide +kernel)
+    1 (by decide) 1 (by decide) (sBytes 9 :: [sBytes 5, sBytes 5, sBytes 5]) (List.sublist_cons_self _ _).subperm
+    [(sBytes 5, 1), (sBytes 5, 1), (sBytes 5, 1)] (by decide +kernel)
+  refine ⟨exp, h1, ?_⟩
+  have := congrArg List.length h2
+  rw [List.length_map] at this
+  rw [this]; decide +kernel
 
 /-- the chain hypothesis is satisfiable: the empty chain at any `k` -/
 example (H : Bytes → Bytes → Bytes) (secret Bspend : α) : SpChain o H secret Bspend 0 [] := .nil 0
